@@ -31,7 +31,8 @@ def misuse(case):
                     def f(z):
                         s = np.sum(z * z) if klass in ('Gradient', 'Hessdiag', 'Hessian') else z * z
                         return s * (1 + 0.5j) if mis in ('complex-f', 'both') else s
-                    x = np.arange(1.0, dim + 1) + (0.5j if mis in ('complex-x', 'both') else 0)
+                    imx = 1e-14j if (dim == 2 and full) else 0.5j
+                    x = np.arange(1.0, dim + 1) + (imx if mis in ('complex-x', 'both') else 0)
                     if klass == 'Derivative' and dim == 1:
                         x = x[0]
                     kw = dict(method=method if hist == 'fresh' else 'central', full_output=full)
